@@ -428,6 +428,68 @@ func levelString(l int) string {
 	return fmt.Sprintf("Level(%d)", l)
 }
 
+// ---- independent reference of the built-in sub-encoders (documented behaviour, written without zap) --------------
+
+// ANSI colours documented for the colour level encoders: debug magenta, info blue, warn yellow, error and above red;
+// levels without a colour of their own are red.
+var refLevelColor = map[int]int{-1: 35, 0: 34, 1: 33, 2: 31, 3: 31, 4: 31, 5: 31}
+
+// refLevelText: what the built-in level encoder `kind` appends for level l ("" , false: not a built-in kind).
+func refLevelText(kind string, l int) (string, bool) {
+	txt := levelString(l)
+	switch kind {
+	case "lower":
+		return txt, true
+	case "capital":
+		return strings.ToUpper(txt), true
+	case "color", "capitalColor":
+		if kind == "capitalColor" {
+			txt = strings.ToUpper(txt)
+		}
+		col, ok := refLevelColor[l]
+		if !ok {
+			col = 31
+		}
+		return "\x1b[" + strconv.Itoa(col) + "m" + txt + "\x1b[0m", true
+	}
+	return "", false
+}
+
+// refCallerText: FullCallerEncoder → "file:line"; ShortCallerEncoder → the last two '/'-separated elements of the file.
+func refCallerText(kind string, cl encCaller) (string, bool) {
+	if kind != "full" && kind != "short" {
+		return "", false
+	}
+	if !cl.Defined {
+		return "undefined", true
+	}
+	file := string(unhx(cl.File))
+	if kind == "short" {
+		if parts := strings.Split(file, "/"); len(parts) > 2 {
+			file = parts[len(parts)-2] + "/" + parts[len(parts)-1]
+		}
+	}
+	return file + ":" + strconv.FormatInt(int64(cl.Line), 10), true
+}
+
+// refCols replaces the observed console column texts of the built-in exact encoders by the reference texts.
+func refCols(c encCfg, e encEnt) encEnt {
+	set := func(s string) *string { h := hx([]byte(s)); return &h }
+	if s, ok := refLevelText(c.LvlEnc, e.Level); ok {
+		e.LvlC = set(s)
+	}
+	if c.TimeEnc == "nanos" && !e.Time.Zero {
+		e.TimeC = set(e.Time.Nanos)
+	}
+	if c.NameEnc == "nil" || c.NameEnc == "full" {
+		e.NameC = set(string(unhx(e.Name)))
+	}
+	if s, ok := refCallerText(c.CallerEnc, e.Caller); ok && e.Caller.Defined {
+		e.CallerC = set(s)
+	}
+	return e
+}
+
 // expectedTree is the object the property says an emitted JSON line must decode to.
 func expectedTree(op *encOp) node {
 	rc := refCtx{op.Cfg}
@@ -441,17 +503,29 @@ func expectedTree(op *encOp) node {
 	}
 	k := func(h string) string { return sanitize(unhx(h)) }
 	if c.LK != "" && c.LvlEnc != "nil" {
-		ms = append(ms, member{key: k(c.LK), val: subOr(e.Lvl, levelString(e.Level))})
+		if s, ok := refLevelText(c.LvlEnc, e.Level); ok {
+			ms = append(ms, member{key: k(c.LK), val: xStr([]byte(s))})
+		} else {
+			ms = append(ms, member{key: k(c.LK), val: subOr(e.Lvl, levelString(e.Level))})
+		}
 	}
 	if c.TK != "" && !e.Time.Zero {
 		ms = append(ms, member{key: k(c.TK), val: rc.timeNode(&e.Time)})
 	}
 	if e.Name != "" && c.NK != "" {
-		ms = append(ms, member{key: k(c.NK), val: subOr(e.NameV, string(unhx(e.Name)))})
+		if c.NameEnc == "noop" { // fall-back: the name itself
+			ms = append(ms, member{key: k(c.NK), val: subOr(e.NameV, string(unhx(e.Name)))})
+		} else { // FullNameEncoder, also substituted for nil
+			ms = append(ms, member{key: k(c.NK), val: xStr(unhx(e.Name))})
+		}
 	}
 	if e.Caller.Defined {
 		if c.CK != "" && c.CallerEnc != "nil" {
-			ms = append(ms, member{key: k(c.CK), val: subOr(e.Caller.V, string(unhx(e.Caller.Str)))})
+			if s, ok := refCallerText(c.CallerEnc, e.Caller); ok {
+				ms = append(ms, member{key: k(c.CK), val: xStr([]byte(s))})
+			} else {
+				ms = append(ms, member{key: k(c.CK), val: subOr(e.Caller.V, string(unhx(e.Caller.Str)))})
+			}
 		}
 		if c.FK != "" {
 			ms = append(ms, member{key: k(c.FK), val: xStr(unhx(e.Caller.Fn))})
